@@ -477,6 +477,9 @@ impl Mp4Track {
             let first_chunk = stsc_entry.first_chunk;
             let first_sample = stsc_entry.first_sample;
             let samples_per_chunk = stsc_entry.samples_per_chunk;
+            if samples_per_chunk == 0 {
+                return Err(Error::InvalidData("stsc samples_per_chunk is zero"));
+            }
 
             let chunk_id = sample_id
                 .checked_sub(first_sample)
